@@ -27,6 +27,7 @@ META = {
     "exhaustive_tiers": {"quick": {"histories of length <= 2 over 11 operations x 13 configurations": True},
                          "thorough": {"histories of length <= 3 over 11 ops + length 4 over 6 state-touching ops x 13 configurations": True}},
 }
+META["added"] = 'Added: in-memory forecasts without n_cat (13 configurations), spatial_counts(cartesian=True) as a twelfth operation, empty-first catalog layouts.'
 MANIFEST = {
     "technique": "sequential history log on a live CatalogForecast checked op-by-op against a reference model (filtered catalog list) and, for evaluations, against a fresh forecast; quiescent-state invariant after each complete operation; exhaustive short histories + random long ones",
     "level_text": "All operation histories up to length 2 (quick) / 3-4 (thorough) over the 11 public operations are enumerated on 13 source/filter configurations; each step's observable result (pass stream, event counts, n_cat, expected rates, marginals, the six evaluations) must equal the single-pass reference regardless of what was called before, and the iterator must be back in its initial state after every complete operation.",
